@@ -5,6 +5,7 @@ import (
 	"encoding/json"
 	"flag"
 	"fmt"
+	"github.com/enbility/spine-go/spine"
 	"os"
 	"runtime"
 	"runtime/pprof"
@@ -114,6 +115,7 @@ func coreReplay(args []string) {
 		for i := 0; i < 20000 && runtime.NumGoroutine() > procBase; i++ {
 			time.Sleep(50 * time.Microsecond)
 		}
+		spine.VerifTraceMark(fmt.Sprint(nb))
 		s := NewSystem(topo)
 		for _, a := range beh {
 			if a.str("a") == "lreq" {
